@@ -40,9 +40,10 @@ theorem body_ctype_wrappers :
 
 /-
   OPEN (not translated, hand translation tied by the correspondence run only):
-  * `String::printf` (String.cpp:17-56) and `String::fromPrintf` (58-97): the two-attempt algorithm over `vsnprintf` with a
-    `va_list` - outside the translated subset; the model functions `printf` / `fromPrintf` mirror it by hand
-    (`printf_text`, `integer_text_first_try`, `double_text_second_try` are about that hand translation).
+  * `String::fromPrintf` (String.cpp:58-97): a second copy of the two-attempt algorithm over `vsnprintf` (on `String s(200)`), translated
+    by neither this area nor Str; the model function `fromPrintf` mirrors it by hand (`fromPrintf_text`).  `String::printf`
+    (17-56) itself is CLOSED: PropsBodyFmt.lean goes through the Str area's translation of its body (`printf_translated`) - the
+    Codec model's `printf printfCap text` is shown to be the value the translated body leaves in the String.
   * `cstr`: what `operator const char*` hands to libc (the chars up to the first NUL) is the model's reading of area Str.
   * the libc functions themselves (`atoi`, `strtoul`, `vsnprintf`, ...) are DEFINITIONS in Model.lean, compared with the real libc
     on the `lcs` / `lcf` / `cls` / `fd` lines of every run.
